@@ -295,6 +295,64 @@ func init() {
 					}
 				}
 			})
+			// decoding driven by a package-level table of {column index, accessor of the destination field}:
+			// `for _, col := range columns { v := parse(arr[col.index]); *col.field(item) = v }`
+			eachInstr(dec, func(ins ssa.Instruction) {
+				st, ok := ins.(*ssa.Store)
+				if !ok {
+					return
+				}
+				call, ok := stripConv(st.Addr).(*ssa.Call)
+				if !ok || call.Call.IsInvoke() || call.Call.StaticCallee() != nil {
+					return
+				}
+				glob, idx, fnPath := tableIndexedBy(resolve(call.Call.Value))
+				if glob == nil {
+					return
+				}
+				colIdx := columnIndexValue(st.Val, 0)
+				if colIdx == nil {
+					return
+				}
+				g2, idx2, idxPath := tableIndexedBy(resolve(colIdx))
+				if g2 != glob || !sameValue(idx, idx2) {
+					c.Undecided(fnKey(dec)+" / column table", st.Pos(), "the destination accessor and the column index do not come from the same element of one table")
+					return
+				}
+				elems, okT := globalTable(glob)
+				if !okT {
+					c.Undecided(fnKey(dec)+" / column table", st.Pos(), "the column table %s is filled under keys that are not constants", glob.Name())
+					return
+				}
+				for j := int64(0); j < int64(len(elems)); j++ {
+					e := elems[j]
+					k, isK := int64(0), false
+					if e[idxPath] != nil {
+						k, isK = constInt(e[idxPath])
+					}
+					fn := funcOfValue(e[fnPath])
+					fname := ""
+					if fn != nil {
+						if rs := returnsOf(fn); len(rs) == 1 && len(rs[0].Results) == 1 {
+							if fa, ok := stripConv(rs[0].Results[0]).(*ssa.FieldAddr); ok && typeIs(fa.X.Type(), "core/base", "MetricItem") {
+								if _, isPar := fa.X.(*ssa.Parameter); isPar {
+									fname = fieldName(fa.X.Type(), fa.Field)
+								}
+							}
+						}
+					}
+					if !isK || fname == "" {
+						c.Undecided(fmt.Sprintf("%s / column table entry %d", fnKey(dec), j), st.Pos(), "entry %d of %s is not {constant column, accessor returning the address of a MetricItem field}", j, glob.Name())
+						continue
+					}
+					n++
+					got := "<none>"
+					if int(k) < len(cols) {
+						got = cols[k]
+					}
+					c.Check(got == fname, fmt.Sprintf("%s / column %d -> %s", fnKey(dec), k, fname), fn.Pos(), "decoder reads %s from column %d (entry %d of %s); encoder writes %s there", fname, k, j, glob.Name(), got)
+				}
+			})
 			if n == 0 {
 				c.Violate(fnKey(dec)+" / columns", dec.Pos(), "decoder stores no field from a column")
 			}
@@ -993,4 +1051,25 @@ func init() {
 			}
 		},
 	})
+}
+
+// columnIndexValue: v is computed from arr[x] of a strings.Split result; returns x.
+func columnIndexValue(v ssa.Value, d int) ssa.Value {
+	if d > 6 {
+		return nil
+	}
+	switch x := stripConv(v).(type) {
+	case *ssa.UnOp:
+		if ia, ok := x.X.(*ssa.IndexAddr); ok && strings.Contains(accessPath(ia.X), "strings.Split(") {
+			return ia.Index
+		}
+		return columnIndexValue(x.X, d+1)
+	case *ssa.Extract:
+		return columnIndexValue(x.Tuple, d+1)
+	case *ssa.Call:
+		if len(x.Call.Args) > 0 {
+			return columnIndexValue(x.Call.Args[0], d+1)
+		}
+	}
+	return nil
 }
